@@ -131,8 +131,11 @@ impl WalStore for ImgStore {
     type Reader = ImgReader;
 
     fn create(&self, name: &str) -> Result<ImgWriter, WalError> {
-        if self.files.lock().unwrap().insert(name.to_string(), Vec::new()).is_some() {
-            self.replaced.lock().unwrap().push(name.to_string());
+        // replacing an EMPTY file loses nothing; replacing one that holds bytes is recorded
+        if let Some(old) = self.files.lock().unwrap().insert(name.to_string(), Vec::new()) {
+            if !old.is_empty() {
+                self.replaced.lock().unwrap().push(name.to_string());
+            }
         }
         self.synced.lock().unwrap().remove(name);
         Ok(ImgWriter {
